@@ -12,6 +12,7 @@ import (
 	"sort"
 	"strings"
 	"sync"
+	"sync/atomic"
 	"time"
 
 	"github.com/go-kit/log"
@@ -23,8 +24,12 @@ import (
 	"kvassverif/internal/cfggen"
 	"kvassverif/internal/core"
 	"kvassverif/internal/sc"
+	"github.com/prometheus/client_golang/prometheus"
+
 	kdisc "tkestack.io/kvass/pkg/discovery"
+	"tkestack.io/kvass/pkg/explore"
 	"tkestack.io/kvass/pkg/prom"
+	kscrape "tkestack.io/kvass/pkg/scrape"
 	"tkestack.io/kvass/pkg/target"
 )
 
@@ -93,20 +98,69 @@ type c02Features struct {
 }
 
 // persistent discovery: one TargetsDiscovery that lives across configuration reloads
+// together with the coordinator's scrape manager and explorer, wired as cmd/kvass/coordinator.go does
+// (all three get the same *ConfigInfo from the reload callbacks)
 type persistentDisc struct {
 	cm     *prom.ConfigManager
+	sm     *kscrape.Manager
+	exp    *explore.Explore
 	d      *kdisc.TargetsDiscovery
 	ch     chan map[string][]*targetgroup.Group
+	ctx    context.Context
 	cancel context.CancelFunc
 }
 
 func newPersistentDisc() *persistentDisc {
 	p := &persistentDisc{cm: prom.NewConfigManager(), d: kdisc.New(sc.Quiet), ch: make(chan map[string][]*targetgroup.Group)}
-	p.cm.AddReloadCallbacks(p.d.ApplyConfig)
-	ctx, cancel := context.WithCancel(context.Background())
-	p.cancel = cancel
-	go func() { _ = p.d.Run(ctx, p.ch) }()
+	p.sm = kscrape.New(false, sc.Quiet)
+	p.exp = explore.New(p.sm, prometheus.NewRegistry(), sc.Quiet)
+	p.cm.AddReloadCallbacks(p.sm.ApplyConfig, p.exp.ApplyConfig, p.d.ApplyConfig)
+	p.ctx, p.cancel = context.WithCancel(context.Background())
+	go func() { _ = p.d.Run(p.ctx, p.ch) }()
+	go func() { _ = p.exp.Run(p.ctx, 2) }()
 	return p
+}
+
+// exploreAll lets the coordinator's explorer scrape every active target once (against a stub
+// exporter), as the first coordination cycle after a discovery result does. Returns the number of
+// requests the explorer made, or -1 when it did not finish.
+func (p *persistentDisc) exploreAll(jobs []string) int {
+	rt := &countTransport{}
+	for _, j := range jobs {
+		if ji := p.sm.GetJob(j); ji != nil {
+			ji.Cli = &http.Client{Transport: rt}
+		}
+	}
+	p.exp.UpdateTargets(p.d.ActiveTargets())
+	active := p.d.ActiveTargetsByHash()
+	for h := range active {
+		p.exp.Get(h)
+	}
+	deadline := time.Now().Add(30 * time.Second)
+	for {
+		done := true
+		for h := range active {
+			if st := p.exp.Get(h); st == nil || st.Health == "unknown" {
+				done = false
+				break
+			}
+		}
+		if done {
+			return int(rt.n.Load())
+		}
+		if time.Now().After(deadline) {
+			return -1
+		}
+		time.Sleep(200 * time.Microsecond)
+	}
+}
+
+type countTransport struct{ n atomic.Int64 }
+
+func (t *countTransport) RoundTrip(r *http.Request) (*http.Response, error) {
+	t.n.Add(1)
+	return &http.Response{StatusCode: 200, Status: "200 OK", Proto: "HTTP/1.1", ProtoMajor: 1, ProtoMinor: 1,
+		Header: http.Header{"Content-Type": []string{"text/plain"}}, Body: io.NopCloser(strings.NewReader("up 1\n")), Request: r}, nil
 }
 
 func (p *persistentDisc) round(groups map[string][]TG) error {
@@ -154,8 +208,16 @@ func runC02(w *core.WorkerCtx, idx int) *core.CaseResult {
 		defer os.RemoveAll(dir)
 		sidecars = append(sidecars, in)
 	}
-	if !c02Phase(res, r, "first configuration", text, groups, pd, sidecars) {
+	if !c02Phase(res, r, "first configuration", text, true, groups, pd, sidecars) {
 		return res
+	}
+	// phase 1b: the coordinator's explorer looks at every target (first coordination cycle), then the
+	// discovery manager re-sends the same groups (it always re-sends everything); no reload in between
+	if len(res.Viol) == 0 {
+		if !c02Explore(res, pd, spec) {
+			return res
+		}
+		c02Phase(res, r, "after exploration, same groups re-sent", text, false, groups, pd, sidecars)
 	}
 	// phase 2: the configuration is reloaded with edited relabel programs / path / scheme, the discovery
 	// manager re-sends the same groups; discovery and sidecars are the same objects as before
@@ -175,7 +237,10 @@ func runC02(w *core.WorkerCtx, idx int) *core.CaseResult {
 			spec2.Jobs = spec2.Jobs[:len(spec2.Jobs)-1]
 		}
 		text2 := cfggen.Render(spec2, cfggen.Style{Indent: 2})
-		c02Phase(res, r, "after a reload", text2, groups, pd, sidecars)
+		c02Phase(res, r, "after a reload", text2, true, groups, pd, sidecars)
+		if len(res.Viol) == 0 && c02Explore(res, pd, spec2) {
+			c02Phase(res, r, "after a reload and exploration, same groups re-sent", text2, false, groups, pd, sidecars)
+		}
 	}
 	res.Viol = dedupeV(res.Viol)
 	if idx < 2 {
@@ -186,7 +251,21 @@ func runC02(w *core.WorkerCtx, idx int) *core.CaseResult {
 
 // c02Phase loads the configuration everywhere, runs one discovery round and compares the sharded
 // pipeline with the reference. Returns false when the phase could not be set up.
-func c02Phase(res *core.CaseResult, r *core.Rng, phase, text string, groups map[string][]TG, pd *persistentDisc, sidecars []*sc.Instance) bool {
+func c02Explore(res *core.CaseResult, pd *persistentDisc, spec *cfggen.Spec) bool {
+	var jobs []string
+	for _, j := range spec.Jobs {
+		jobs = append(jobs, j.Name)
+	}
+	n := pd.exploreAll(jobs)
+	if n < 0 {
+		res.Inconcl = "the explorer did not finish all active targets within 30 s"
+		return false
+	}
+	res.AddStat("explorer_requests", int64(n))
+	return true
+}
+
+func c02Phase(res *core.CaseResult, r *core.Rng, phase, text string, reload bool, groups map[string][]TG, pd *persistentDisc, sidecars []*sc.Instance) bool {
 	orig, err := config.Load(text, false, log.NewNopLogger())
 	if err != nil {
 		res.Inconcl = "generated configuration rejected: " + err.Error()
@@ -229,9 +308,11 @@ func c02Phase(res *core.CaseResult, r *core.Rng, phase, text string, groups map[
 	}
 
 	// ---- kvass: discovery -> shards -> sidecar -> generated file -> Prometheus loader -> proxy
-	if err := pd.cm.ReloadFromRaw([]byte(text)); err != nil {
-		res.Inconcl = "coordinator rejected configuration: " + err.Error()
-		return false
+	if reload {
+		if err := pd.cm.ReloadFromRaw([]byte(text)); err != nil {
+			res.Inconcl = "coordinator rejected configuration: " + err.Error()
+			return false
+		}
 	}
 	live := map[string][]TG{}
 	for _, jc := range orig.ScrapeConfigs {
